@@ -632,3 +632,123 @@ contract(F, 'Node.query', props=('C17',), params={'self': 'self', 'action': 'obj
          ensures=[('one-shot-responder-for-the-reply-filtered-by-own-id,then-one-request',
                    ask_post('/n_query', '/n_info', ['id'], []))],
          modifies=[], **DYN)
+
+
+# ---- setn (Node and Buffer): ranges of adjacent controls --------------------------------------------------------
+# the (converted) arguments are taken pairwise (control, values); for EVERY pair, in order, the argument list grows by
+#   control, len(values), values...   when `values` is a list, and by   control, 1, values   otherwise;
+# then ONE message: the reference command, the own id, and exactly that list.
+U = 'sc3/base/utils.py'
+NPAIR = z3.Int('pairs.len')
+PCTL = z3.Function('pair_control', z3.IntSort(), VV.Any)
+PVAL = z3.Function('pair_values', z3.IntSort(), VV.Any)
+
+
+def clumps_pol(eng, selfv, args, kwargs, st, node):
+    st.trace.append(('pairs-of', args[0], args[1] if len(args) > 1 else None))
+    return [(st, V('seq', extra={'len': NPAIR, 'facts': [NPAIR >= 0],
+                                 'get': (lambda e_, i, s_: vlist([V('any', PCTL(i)), V('any', PVAL(i))]))}))]
+
+
+def sn_new_list(eng, items, st):
+    if items == [] and not [e for e in st.trace if e[0] == 'arg-list-made']:
+        st.trace.append(('arg-list-made',))
+        return V('ref', cls='ArgList', oid='the-arg-list')
+    return None
+
+
+def sn_getattr(eng, obj, name, st, node):
+    if obj.k == 'ref' and obj.cls == 'ArgList' and name == 'extend':
+        def ext(eng, a, kw, st, node):
+            st.trace.append(('extend', a[0]))
+            return [(st, NONE)]
+        return [(st, V('func', py=('spec', ext)))]
+    if obj.k == 'obj' and obj.oid == 'self._server' and name == 'addr':
+        return [(st, V('obj', oid='addr-of:self.server'))]
+    return dyn_getattr(eng, obj, name, st, node)
+
+
+def sn_since(trace):
+    idx = -1
+    for i, e in enumerate(trace):
+        if e[0] == 'loop-head':
+            idx = i
+    return trace[idx + 1:] if idx >= 0 else []
+
+
+def sn_pass(c, L):
+    if L.phase != 'after':
+        return z3.BoolVal(True)
+    ev = [e for e in sn_since(c.trace) if e[0] in ('extend', 'send_msg')]
+    k = L.i - 1
+    if len(ev) != 1 or ev[0][0] != 'extend' or ev[0][1].k != 'list' or ev[0][1].items is None or len(ev[0][1].items) != 3:
+        return z3.BoolVal(False)
+    ctl, cnt, vals = ev[0][1].items
+    is_list = VV.tag_of(PVAL(k)) == TAGS['list']
+    if ctl.k != 'any' or cnt.k != 'int':
+        return z3.BoolVal(False)
+    if vals.k == 'star':
+        sq = vals.extra['seq']
+        src = sq.z if sq.k in ('dyn', 'any') else None
+        if src is None:
+            return z3.BoolVal(False)
+        return z3.And(is_list, ctl.z == PCTL(k), src == PVAL(k), cnt.z == VV.any_len(PVAL(k)))   # control, count, the values
+    if vals.k in ('any', 'dyn'):
+        return z3.And(z3.Not(is_list), ctl.z == PCTL(k), vals.z == PVAL(k), cnt.z == 1)             # control, 1, the value
+    return z3.BoolVal(False)
+
+
+def sn_over(c, sq, k, elem):
+    ok = elem.k == 'list' and elem.items is not None and len(elem.items) == 2 and all(x.k == 'any' for x in elem.items)
+    if not ok:
+        return z3.BoolVal(False), z3.BoolVal(False)
+    return sq.extra['len'] == NPAIR, z3.And(elem.items[0].z == PCTL(k), elem.items[1].z == PVAL(k))
+
+
+def sn_post(address, id_of, converted):
+    def post(c):
+        s = [e for e in c.trace if e[0] in ('send_msg', 'send_bundle')]
+        pairs = [e for e in c.trace if e[0] == 'pairs-of']
+        if len(s) != 1 or s[0][0] != 'send_msg' or s[0][1] != OWN or len(pairs) != 1:
+            return z3.BoolVal(False)
+        a = s[0][2]
+        src = pairs[0][1]
+        if converted:
+            conv = src.extra.get('converted') if src.k == 'obj' and src.extra else None
+            src_ok = conv is not None and conv[0] == '_as_control_input' and conv[1] is c._params['args']
+        else:
+            src_ok = src is c._params['args']
+        ok = (src_ok and pairs[0][2] is not None and pairs[0][2].k == 'int'
+              and z3.is_int_value(z3.simplify(pairs[0][2].z)) and z3.simplify(pairs[0][2].z).as_long() == 2   # taken pairwise
+              and len(a) == 3 and a[0].k == 'str' and a[0].py == address and a[1].k == 'int'
+              and a[2].k == 'star' and a[2].extra['seq'].k == 'ref' and a[2].extra['seq'].oid == 'the-arg-list')
+        return z3.And(z3.BoolVal(bool(ok)), a[1].z == id_of(c)) if ok else z3.BoolVal(False)
+    return post
+
+
+SN = dict(hooks={'getattr': sn_getattr, 'new_list': sn_new_list, 'construct': dyn_construct}, native=False,
+          opts={'star_in_display_to_ghost': True},
+          policies={G + '::node_param': np_pol, U + '::gen_cclumps': clumps_pol})
+contract(F, 'Node.setn', props=('C17',), params={'self': 'self', 'args': args_tuple_kind},
+         ensures=[('one-/n_setn:own-id,then-the-list-built-from-every-pair', sn_post('/n_setn', lambda c: c.pre.self.node_id, True))],
+         loops={0: Loop(inv=sn_pass, over=sn_over, kinds={'control': 'any', 'more_vals': 'any'})},
+         modifies=[], fields=dict(FIELDS, ArgList={}), class_modules=dict({k: F for k in FIELDS}, ArgList=F), **SN)
+
+FB = 'sc3/synth/buffer.py'
+contract(FB, 'Buffer.setn', props=('C17', 'C16'), params={'self': 'self', 'args': args_tuple_kind},
+         ensures=[('one-/b_setn:own-number,then-the-list-built-from-every-pair', sn_post('/b_setn', lambda c: c.pre.self._bufnum, False))],
+         loops={0: Loop(inv=sn_pass, over=sn_over, kinds={'control': 'any', 'values': 'any'})},
+         modifies=[], fields={'Buffer': {'_bufnum': 'int', '_server': 'obj'}, 'ArgList': {}},
+         class_modules={'Buffer': FB, 'ArgList': FB}, **SN)
+_k = '%s::Buffer.setn#live' % FB
+REGISTRY[_k] = REGISTRY.pop('%s::Buffer.setn' % FB)
+REGISTRY[_k].key = _k
+contract(FB, 'Buffer.setn', props=('C17', 'C16'), params={'self': 'self', 'args': args_tuple_kind},
+         raises={'BufferAlreadyFreed': lambda c: z3.BoolVal(True)},
+         ensures=[('a-freed-buffer-never-returns-normally', lambda c: z3.BoolVal(False))],
+         on_raise=[('refused-and-nothing-sent', lambda c: z3.BoolVal(not [e for e in c.trace if e[0] in ('send_msg', 'extend')]))],
+         modifies=[], fields={'Buffer': {'_bufnum': 'none', '_server': 'obj'}, 'ArgList': {}},
+         class_modules={'Buffer': FB, 'ArgList': FB}, **SN)
+_k = '%s::Buffer.setn#freed' % FB
+REGISTRY[_k] = REGISTRY.pop('%s::Buffer.setn' % FB)
+REGISTRY[_k].key = _k
